@@ -11,6 +11,8 @@ structure St where
   quiet : Bool := false        -- the client hangs up after the last scripted request (no probe)
   items : List Item := []     -- reversed
   xws : List (Option XW) := [] -- reversed; wire attributes of the non-CONNECT items
+  replay : List Bool := []     -- reversed; can `http.Transport` replay the request (bodiless and idempotent)?
+  oom : Bool := false          -- the case has an item outside the model's domain (answer `out-of-model`)
   bad : Bool := false
 
 def init : St := {}
@@ -30,7 +32,8 @@ def parseErrVal : Option String → Option ErrVal
 
 def parseRq (ek : Option String) : String → Option ReqB
   | "pass" => some .pass | "err" => (parseErrVal ek).map .err | "skip" => some .skip
-  | "errskip" => (parseErrVal ek).map .errSkip | "hijack" => some .hijack | _ => none
+  | "errskip" => (parseErrVal ek).map .errSkip | "hijack" => some .hijack
+  | "insec" => some .insecure | _ => none
 def parseRs (sek : Option String) : String → Option ResB
   | "pass" => some .pass | "err" => (parseErrVal sek).map .err | "hijack" => some .hijack | _ => none
 def parseBool : String → Option Bool | "1" => some true | "0" => some false | _ => none
@@ -173,15 +176,53 @@ def pieces : List Ev → List (List Ev) → List Ev → List (List Ev)
   | .read i :: r, acc, cur => pieces r (cur.reverse :: acc) [.read i]
   | e :: r, acc, cur => pieces r acc (e :: cur)
 
-def finish (s : St) : String :=
-  let items := s.items.reverse
+/-- The session state in which each request of the script is handled (`none` once the connection
+has ended), in one pass. -/
+def statesOf (sd : Bool) : Martian.Proxy.St → Nat → List Item → List (Option Martian.Proxy.St)
+  | _, _, [] => []
+  | s, i, it :: rest =>
+    some s :: (match (handleItem sd s i i it).2 with
+      | .again s' => statesOf sd s' (i + 1) rest
+      | _ => rest.map fun _ => none)
+
+/-- `dropped=<i,j,…>` on `end`: the exchanges for which the origin dropped a REUSED upstream connection
+without answering (an observation of the run). `http.Transport` retries such a request on a fresh
+connection iff it can replay it; otherwise the round trip fails. -/
+def applyDrops (items : List Item) (replay : List Bool) (dropped : List Nat) : List Item :=
+  (List.range items.length).zip (items.zip replay) |>.map fun (i, it, rp) =>
+    if dropped.contains i && !rp then
+      match it with
+      | .x rc rq rs (.ok _ _) => .x rc rq rs .fail
+      | it => it
+    else it
+
+def numWrites (evs : List Ev) : Nat := countP (fun e => match e with | .write .. => true | _ => false) evs
+
+def isStrictlyIncreasing : List Nat → Bool
+  | a :: b :: r => a < b && isStrictlyIncreasing (b :: r)
+  | _ => true
+
+/-- `burst n=<N>`: N pipelined bodiless requests whose request modifier skips the round trip, on one
+connection; only counts and the uniqueness of the context ids are observed. -/
+def burst (s : St) (n : Nat) : String :=
+  let s0 : Martian.Proxy.St := if s.tlsListener then tlsListenerState else {}
+  let evs := runConnOn s0 s.shutdown 0 (List.replicate n (.x false .skip .pass (.ok 200 false)))
+  let ls := links evs
+  s!"served={numWrites evs} distinct={b (isStrictlyIncreasing ls && ls.length == n)} samectx=1 sessions=1 ctxleft={ls.length - (unlinks evs).length}"
+
+def finish (s : St) (dropped : List Nat) : String :=
+  if s.oom then "out-of-model" else
+  let items := applyDrops s.items.reverse s.replay.reverse dropped
   let s0 : Martian.Proxy.St := if s.tlsListener then tlsListenerState else {}
   let evs := runConnOn s0 s.shutdown 0 items
   let ps := ((pieces evs [] []).drop 1).toArray        -- piece 0 is what precedes the first read: nothing
   let xws := s.xws.reverse.toArray
   let its := items.toArray
+  let sts := (statesOf s.shutdown s0 0 items).toArray
   let per := (List.range items.length).map fun i =>
-    summaryAt (its[i]?) ((xws[i]?).join) (ps[i]?.getD []) i
+    let sv := match (sts[i]?).join with | some st => toString st.stored | none => "-"
+    let line := summaryAt (its[i]?) ((xws[i]?).join) (ps[i]?.getD []) i
+    if line.endsWith "unserved" then line else line ++ s!",sv={sv}"
   let left := (links evs).filter (fun c => !(unlinks evs).contains c)
   " | ".intercalate per ++ s!" | open={b (!s.quiet && stillOpen s0 s.shutdown items)} ctxleft={left.length} distinct={b (links evs).Nodup}"
 
@@ -194,7 +235,14 @@ def step (s : St) (toks : List String) : St × String :=
     match (kv rest "shutdown").bind parseBool with
     | some sd => ({ shutdown := sd, tlsListener := tl, quiet := q }, "ok")
     | none => ({ tlsListener := tl, quiet := q }, "ok")
-  | ["end"] => if s.bad then (init, "bad-op") else (init, finish s)
+  | "end" :: hints =>
+    if s.bad then (init, "bad-op") else
+    let dropped := ((kv hints "dropped").map fun l => (l.splitOn ",").filterMap String.toNat?).getD []
+    (init, finish s dropped)
+  | ["burst", n] =>
+    match ((kv [n] "n").bind String.toNat?) with
+    | some n => (init, burst s n)
+    | none => (init, "bad-op")
   | _ =>
     match GoLib.step toks with
     | some o => (s, o)
@@ -203,7 +251,12 @@ def step (s : St) (toks : List String) : St × String :=
     | some o => (s, o)
     | none =>
     match parseItem toks with
-    | some (it, xw) => ({ s with items := it :: s.items, xws := xw :: s.xws }, "queued")
+    | some (it, xw) =>
+      let rp := (["GET", "HEAD", "OPTIONS", "TRACE"].contains ((kv toks "m").getD "GET")) && (kv toks "rb").getD "0" == "0"
+      -- a downstream proxy's own answer to a CONNECT (anything but "tunnel established" / "unreachable") is
+      -- outside the model: the oracle alone judges such cases
+      let oom := s.oom || ((kv toks "dsr").isSome && !["200", "refuse", "close", "trunc", "garbage"].contains ((kv toks "dsr").getD "200"))
+      ({ s with items := it :: s.items, xws := xw :: s.xws, replay := rp :: s.replay, oom := oom }, "queued")
     | none => ({ s with bad := true }, "bad-op")
 
 end Martian.Drv.Proxy
